@@ -242,6 +242,9 @@ func builtinEffects(name string, c *ssa.CallCommon) *effectSet {
 	e := newEffectSet()
 	switch name {
 	case "copy":
+		if len(c.Args) > 0 && freshSliceValue(c.Args[0], map[ssa.Value]bool{}) {
+			return e // the destination is storage this call created itself
+		}
 		if len(c.Args) > 0 {
 			if s, ok := c.Args[0].Type().Underlying().(*types.Slice); ok {
 				e.cls[elemClass(s.Elem())] = true
@@ -251,7 +254,11 @@ func builtinEffects(name string, c *ssa.CallCommon) *effectSet {
 		}
 		e.writesArgs = true
 	case "append":
-		// may write the spare capacity of its first argument
+		// may write the spare capacity of its first argument - unless that slice is this function's own (nil, a make, or
+		// what earlier appends to such a slice returned): then the write lands in storage created by this call
+		if len(c.Args) > 0 && freshSliceValue(c.Args[0], map[ssa.Value]bool{}) {
+			return e
+		}
 		if len(c.Args) > 0 {
 			if s, ok := c.Args[0].Type().Underlying().(*types.Slice); ok {
 				e.cls[elemClass(s.Elem())] = true
@@ -533,4 +540,35 @@ func (an *Analysis) freeVarWritten(fn *ssa.Function, i int) bool {
 		return false
 	}
 	return check(fv)
+}
+
+// freshSliceValue: v is a slice whose backing storage, if any, was created by the enclosing function itself: nil,
+// make(...), a (re-)slice or an append result of such a value, or a phi of such values.
+func freshSliceValue(v ssa.Value, seen map[ssa.Value]bool) bool {
+	if seen[v] {
+		return true // a cycle through a loop phi adds nothing new
+	}
+	seen[v] = true
+	switch x := v.(type) {
+	case *ssa.Const:
+		return x.IsNil()
+	case *ssa.MakeSlice:
+		return true
+	case *ssa.Slice:
+		return freshSliceValue(x.X, seen)
+	case *ssa.ChangeType:
+		return freshSliceValue(x.X, seen)
+	case *ssa.Phi:
+		for _, e := range x.Edges {
+			if !freshSliceValue(e, seen) {
+				return false
+			}
+		}
+		return true
+	case *ssa.Call:
+		if b, ok := x.Call.Value.(*ssa.Builtin); ok && b.Name() == "append" && len(x.Call.Args) > 0 {
+			return freshSliceValue(x.Call.Args[0], seen)
+		}
+	}
+	return false
 }
